@@ -326,7 +326,7 @@ def run_task(task):
     res = Result()
     if task['kind'] == 'reloc':
         # Rock Ridge relocation gathers directories from different parents in one directory: same-name collisions
-        chain = dict(ops.chains_for(task['cfg'], 'quick'))['reloc-collide']
+        chain = dict((it[0], it[1]) for it in ops.chains_for(task['cfg'], 'quick'))['reloc-collide']
         for i in range(1, len(chain) + 1):
             seq = chain[:i]
             vs, upto, tag = run_dup(task['cfg'], seq, res)
